@@ -223,3 +223,44 @@ Lemma mx_result :
   map (fun b => map BuildIAT.ie_trace (BuildIAT.ib_entries b)) (af_iat (snd r)) = [[231380100000003; 231380100000005]] /\
   Offsets.fc_count (af_ctl (snd r)) = 21 /\ Offsets.fc_credit (af_ctl (snd r)) = 3800.
 Proof. vm_compute. repeat split. Qed.
+
+(* ---- ADV: the sequence-number limit --------------------------------------------------------- *)
+
+Lemma c12_create_adv_iff hd ap x :
+  hd_ok (hd (b_sig x)) = true -> b_entries x = [] -> b_adv x <> [] -> category_ok x = true ->
+  (create_adv GTT hd ap x <> None <-> BuildIAT.zlen (b_adv x) <= 9998).
+Proof. apply create_adv_iff. Qed.
+
+(* two ADV batches of 5000 entries with one header: each passes Create; consolidated they hold
+   10000 entries, Create fails on the four digit sequence number, the batch is not added and
+   File.Create returns ErrFileNoBatches (known finding flatten:error:adv-sequence-limit, witness
+   corpus/C12/full-adv-two-batches-of-5000.json replayed on the real code every run) *)
+Definition ax_hd (s : bytes) : hdrp := mkhdrp 280 (dsb [1;2;1;0;4;2;8;8]) true true 12104288 true.
+Definition ax_ap (c : bytes) : apay := mkapay 81 23138010 false.
+Definition ax_entries : list entry := repeat (mkEntry [] [1%N] 100 false 0 0) 5000.
+Definition ax_inp : list batch := [mkBatch KStd [8%N] 1 [] ax_entries; mkBatch KStd [8%N] 2 [] ax_entries].
+Definition ax_inf : fin := mkfin true 0 0 0.
+
+Lemma ax_refutes :
+  Forall (fun b => create_adv GTT ax_hd ax_ap b <> None /\ is_category_std true b = true) ax_inp /\
+  kinds_consistent ax_inp /\
+  fst (flatten_full_stable GA GT GTT ax_hd fx_sp fx_ip ax_ap ax_inf ax_inp) = FErrCreate /\
+  af_std (snd (flatten_full_stable GA GT GTT ax_hd fx_sp fx_ip ax_ap ax_inf ax_inp)) = [].
+Proof.
+  split.
+  { unfold ax_inp. apply Forall_cons; [|apply Forall_cons; [|apply Forall_nil]].
+    all: split; [apply c12_create_adv_iff|]; try (vm_compute; reflexivity); try (vm_compute; discriminate). }
+  split.
+  { assert (K : forall x, In x ax_inp -> b_kind x = KStd) by (intros x [<-|[<-|[]]]; reflexivity).
+    intros a b Ha Hb _. now rewrite (K a Ha), (K b Hb). }
+  split; vm_compute; reflexivity.
+Qed.
+
+Lemma c12_succeeds_adv_limit_refuted :
+  exists hd sp ip ap inf inp,
+    Forall (fun b => create_adv GTT hd ap b <> None /\ is_category_std true b = true) inp /\ kinds_consistent inp /\
+    exists r, flatten_full_spec GA GT GTT hd sp ip ap inf inp r /\ fst r = FErrCreate /\ af_std (snd r) = [].
+Proof.
+  exists ax_hd, fx_sp, fx_ip, ax_ap, ax_inf, ax_inp. destruct ax_refutes as (H1 & H2 & H3 & H4).
+  split; [exact H1|]. split; [exact H2|]. eexists. split; [apply flatten_full_stable_spec|]. split; assumption.
+Qed.
